@@ -104,7 +104,7 @@ class Subkeys(VC):
 
 def vcs(tier):
     out = [Whitelist(), Subkeys(0), Subkeys(1), Subkeys(2, 1, 1)]
-    if tier == "thorough": out.append(Subkeys(2, 2, 2))
+    if tier == "thorough": out += [Subkeys(2, 2, 2), Subkeys(1, 1, 4)]
     return out
 
 
